@@ -279,25 +279,16 @@ def fn_merge(ctx, lib, nm, b):
 
 
 def fn_map(ctx, lib, nm, b):
+    """Array of interpret(element, the expression, ctx) for every element of args[1], in order, nothing dropped —
+    as a loop with push or as an iterator chain."""
+    from ..collected import ELEM, describe_vector
     o, oks, _ = ok_terms(b, lib)
-    pushes = [(bb, t) for bb, t in b.calls() if t["callee"].endswith("Vec::<T, A>::push")]
-    nx = [(bb, t) for bb, t in b.calls() if t["callee"] == "std::iter::Iterator::next"]
-    it = [(bb, t) for bb, t in b.calls() if t["callee"] == INTERP]
-    ok = len(pushes) == 1 and len(nx) == 1 and len(it) == 1 and len(oks) == 1
+    ok = len(oks) == 1 and bool(oks[0][1]) and all(t[0] == "agg" and t[1] == V + "::Array" for t in oks[0][1])
     if ok:
-        vec = o.of_operand(pushes[0][1]["args"][0])
-        val = o.of_operand(pushes[0][1]["args"][1])
-        ok = ms(vec, Call("std::vec::Vec::<T>::new")) and ms(val, Call(INTERP, Each(("elem", view("array", arg(1)))), Each(view("expref", arg(0))), Each(("param", 3)))) and \
-            ms(o.of_operand(nx[0][1]["args"][0]), ("iter", view("array", arg(1)))) and ms(oks[0][1], Agg(V + "::Array", Each(Call("std::vec::Vec::<T>::new"))))
-        # unconditional push: from the evaluation's success the loop head is reached only through the push
-        br = Branches(b, o)
-        cont = None
-        for bb, t in b.calls():
-            if t["callee"] == "std::ops::Try::branch" and o.of_operand(t["args"][0]) == val:
-                ve = br.variant_edges(t["t"])
-                if ve and "Continue" in ve["edges"]:
-                    cont = ve["edges"]["Continue"]
-        ok = ok and cont is not None and nx[0][0] not in reach_avoiding(b, cont, avoid_blocks=[pushes[0][0]])
+        for t in oks[0][1]:
+            d = describe_vector(lib, b, o, set(t[2][0]))
+            ok = ok and d is not None and len(d) == 1 and ms(d[0].source, view("array", arg(1))) and d[0].every_item and \
+                ms(d[0].value, Call(INTERP, Each(ELEM), Each(view("expref", arg(0))), Each(("param", 3))))
     C(ctx, nm, "value", ok, "the expression is applied to every element in order and every result (incl. null) is pushed: same length as the input", b)
 
 
@@ -705,13 +696,11 @@ def check_expref_application(ctx, lib, by_name, sigs):
             ctx.bad(rule, f"{nm}:signature", f"{nm} should have one expref and one array parameter")
             continue
         o = Origins(b, lib)
-        for bb, t in b.calls():
-            if t["callee"] != INTERP:
-                continue
+        from ..collected import call_sites
+        for argsets, span in call_sites(lib, b, o, INTERP):
+            t = {"span": {"s": span}}
             n += 1
-            d = o.of_operand(t["args"][0])
-            a = o.of_operand(t["args"][1])
-            c = o.of_operand(t["args"][2])
+            d, a, c = argsets[0], argsets[1], argsets[2]
             el = view("array", arg(karr[0]))
             ok = ms(d, Or_(("elem", el), ("elem", el, 0))) and ms(a, view("expref", arg(kexp[0]))) and c == {("param", 3)}
             ctx.check(ok, rule, f"{nm}@{n}", f"{nm}: interpret(element of args[{karr[0]}], the expression reference args[{kexp[0]}], ctx) ({fmt_terms(d)[:40]}; {fmt_terms(a)[:40]})", t["span"]["s"])
